@@ -20,10 +20,10 @@ ID = "C13"
 LEVEL = "exploration"
 QUICK_RUNS = 40000
 BATCH = 1000
-SWEEP_BATCH = 60
+SWEEP_BATCH = 40
 SWEEP_EXHAUSTIVE_NOTE = ("bounded sweep: every string over {a,b,CR,LF} up to length L x all 39 width lists (1-3 fields "
-                         "of width 1-3) x the 5 delimiter settings through StringIO; L = 4 in the quick tier, 7 in the "
-                         "thorough tier (the statement's L = 9 is sampled by the seeded part, not enumerated)")
+                         "of width 1-3) x the 5 delimiter settings through StringIO; L = 5 in the quick tier, 9 (the statement's "
+                         "bound, 68 million reads) in the thorough tier")
 SETTINGS = {"any": "any", "lf": "\n", "cr": "\r", "crlf": "\r\n", "none": None}
 RULE_TEXT = (
     "seeded scenarios: well-formed fixed files (1-3 fields of width 1-3, 0-6 records, alphabet a/b/blank/CR/LF/u-umlaut, "
@@ -185,7 +185,7 @@ ALPHABET = ["a", "b", "\r", "\n"]
 
 
 def _sweep_length(tier):
-    return 4 if tier == "quick" else 7
+    return 5 if tier == "quick" else 9
 
 
 def _sweep_texts(tier):
